@@ -28,6 +28,7 @@ class SolveAnalysis:
         self.odata0 = E.obs_data() if aux else None
         self.val0 = ValToken() if validation else None
         self.tracked = E.Params.make(nn_params=None, eq_params={'a': True}) if tracked else None
+        self.is_tracked = tracked
         self.n_iter = K('n_iter')
         self.opt_state0 = Sym('opt_state_in') if opt_state_given else None
         self.rec = {}
@@ -61,7 +62,8 @@ class SolveAnalysis:
                                                      if self.aux else None))
         lc = E.LossContainer.make(stored_loss_terms={k: Sym(f'hist_{k}_{tag}') for k in TERM_KEYS},
                                   train_loss_values=Sym(f'hist_total_{tag}'))
-        so = E.StoredObjectContainer.make(stored_params=E.Params.make(nn_params=None, eq_params={'a': Sym(f'hist_a_{tag}')}))
+        so = E.StoredObjectContainer.make(stored_params=E.Params.make(
+            nn_params=None, eq_params={'a': (Sym(f'hist_a_{tag}') if self.tracked is not None else None)}))
         val = ValToken(f'val_{tag}') if self.validation else None
         crit = Sym(f'crit_{tag}') if self.validation else None
         return (i, self.loss, opt, extra, td, val, lc, so, crit)
@@ -120,7 +122,8 @@ class SolveAnalysis:
         spec['hist_total'] = Sym('at_set', lc.fields['train_loss_values'], fz(i), fz(total))
         spec['hist_terms'] = {k: Sym('at_set', lc.fields['stored_loss_terms'][k], fz(i), fz(terms[k])) for k in TERM_KEYS}
         sp = so.fields['stored_params']
-        spec['hist_a'] = Sym('at_set', sp.fields['eq_params']['a'], fz(i), fz(params2.fields['eq_params']['a']))
+        spec['hist_a'] = (Sym('at_set', sp.fields['eq_params']['a'], fz(i), fz(params2.fields['eq_params']['a']))
+                          if self.tracked is not None else None)
         return spec
 
     @staticmethod
